@@ -24,10 +24,10 @@ class FrameRule(BaseRule):
         self.chunks_kind, self.cl_kind = chunks_kind, cl_kind
 
     def getattr(self, it, st, node, base):
-        t = ast.unparse(node)
-        if t == "chunks_and_cl.chunks":
+        is_res = base.kind == "obj" and base.val == "chunks_and_cl"
+        if is_res and node.attr == "chunks":
             return const(None) if self.chunks_kind == "none" else AV("obj", "chunks", truth=True, none=False)
-        if t == "chunks_and_cl.content_length":
+        if is_res and node.attr == "content_length":
             return const(None) if self.cl_kind == "none" else AV("unk", sym="content_length", none=False, tags=frozenset({"content_length"}))
         return None
 
@@ -38,6 +38,7 @@ class FrameRule(BaseRule):
                 return [(st.copy(), False)]
             s = st.copy()
             s.ts["chunk_iters"] = n + 1
+            s.ts["chunk_var"] = ast.unparse(stmt.target)
             it.assign(s, stmt.target, AV("unk", sym="chunk", tags=frozenset({"chunk"})))
             return [(s, True), (st.copy(), False)]
         # header loop: one symbolic iteration, not interesting
@@ -70,11 +71,11 @@ class FrameRule(BaseRule):
                 elts = [ast.unparse(e) for e in a.right.elts] if isinstance(a.right, ast.Tuple) else []
                 s.ts["sends"] = s.ts.get("sends", ()) + ("chunk-framed:" + ",".join(elts),)
             elif isinstance(a, ast.Name):
-                s.ts["sends"] = s.ts.get("sends", ()) + ("raw:" + a.id,)
+                s.ts["sends"] = s.ts.get("sends", ()) + ("raw:" + ("chunk" if a.id == st.ts.get("chunk_var") else a.id),)
             else:
                 s.ts["sends"] = s.ts.get("sends", ()) + ("other:" + txt[:30],)
             # chunk emptiness / encoding facts at send time
-            ch = st.env.get(it.var("chunk"))
+            ch = st.env.get(it.var(st.ts.get("chunk_var", "chunk")))
             if ch is not None:
                 chv = st.view(ch)
                 s.ts["chunk_truth_at_send"] = chv.truth
@@ -187,12 +188,14 @@ def run(ctx):
     empt = [o for o in rows.values() if o.st.ts.get("chunk_truth_at_send") is not True and any(s.startswith(("chunk-framed", "raw:chunk")) for s in o.st.ts.get("sends", ()))]
     ctx.ob(R2, rq.qual, "a chunk is sent only when non-empty", not empt, "" if not empt else "an empty chunk in chunked mode ends the body early", witness=empt[0].st.witness() if empt else None, node=rq.node)
     # str -> utf-8 before measuring
-    loop = [n for n in astq.walk_fn(rq.node) if isinstance(n, ast.For) and astq.text(n.iter) == "chunks"]
+    chunk_srcs = set(astq.assigned_from(rq.node, lambda v: isinstance(v, ast.Attribute) and v.attr == "chunks"))
+    loop = [n for n in astq.walk_fn(rq.node) if isinstance(n, ast.For) and isinstance(n.iter, ast.Name) and n.iter.id in chunk_srcs]
     ok = False
     if loop:
         body = loop[0].body
-        enc_i = [i for i, s in enumerate(body) if isinstance(s, ast.If) and astq.text(s.test) == "isinstance(chunk, str)"
-                 and any(astq.text(x).replace('"', "'") == "chunk = chunk.encode('utf-8')" for x in s.body)]
+        cv = astq.text(loop[0].target)
+        enc_i = [i for i, s in enumerate(body) if isinstance(s, ast.If) and astq.text(s.test) == f"isinstance({cv}, str)"
+                 and any(astq.text(x).replace('"', "'") == f"{cv} = {cv}.encode('utf-8')" for x in s.body)]
         send_i = [i for i, s in enumerate(body) if any(astq.call_text(c) == "self.send" for c in astq.calls(s))]
         ok = bool(enc_i) and bool(send_i) and enc_i[0] < send_i[0]
     ctx.ob(R2, rq.qual, "str chunks are UTF-8 encoded before being measured and sent", ok)
@@ -256,7 +259,8 @@ def run(ctx):
             t = ast.unparse(node.func)
             if t == "getattr":
                 return [Out("normal", st, AV("unk", sym="attr:" + ast.unparse(node.args[1])))]
-            if t == "body_seek":
+            fv = st.view(st.env.get(it.var(node.func.id))) if isinstance(node.func, ast.Name) and it.var(node.func.id) in st.env else None
+            if fv is not None and fv.sym == "attr:'seek'":
                 s = st.copy()
                 s.ts["seeked"] = tuple(sorted(pos[0].tags)) if pos else ()
                 return [Out("normal", s, UNK), Out("raise", st.copy(), exc("builtins.OSError"))]
@@ -352,8 +356,8 @@ def rule_r6(ctx):
             if t == "to_bytes":
                 return [Out("normal", st, AV("unk", tags=frozenset(pos[0].tags | {"to_bytes"}), none=False))]
             if t == "len":
-                a = node.args[0]
-                return [Out("normal", st, AV("unk", tags=frozenset({"len:" + ast.unparse(a)}), none=False))]
+                a = pos[0] if pos else UNK
+                return [Out("normal", st, AV("unk", tags=frozenset({"len-of:" + ",".join(sorted(a.tags))}), none=False))]
             if t == "hasattr":
                 return [Out("normal", st, AV("unk", sym="has:" + ast.unparse(node.args[1])))]
             if t == "memoryview":
@@ -368,10 +372,17 @@ def rule_r6(ctx):
                 return [Out("normal", s, AV("obj", "result", truth=True, none=False))]
             if t == "method.upper":
                 return [Out("normal", st, AV("unk", sym="METHOD"))]
+            if t == "to_bytes" and not pos:
+                return [Out("normal", st, UNK)]
             q = it.resolve_callee(node, recv)
             if q and it.m.is_exception_class(q):
                 return [Out("normal", st, AV("exc", it.m.norm(q), truth=True, none=False))]
             return [Out("normal", st, UNK)]
+
+        def global_value(self, it, name):
+            if name == "_METHODS_NOT_EXPECTING_BODY":
+                return AV("unk", sym="NOBODY_SET", none=False)
+            return None
 
         def getattr(self, it, st, node, base):
             if base.kind == "obj" and base.val == "mv" and node.attr == "nbytes":
@@ -394,10 +405,13 @@ def rule_r6(ctx):
             continue
         seen.add(key)
         if body_none is True:
-            ok = ch.kind == "const" and ch.val is None and cl.kind == "const" and cl.val in (0, None)
-            what = "no body: chunks None, length 0 or None"
+            in_set = o.st.ts.get(("cmp", "METHOD", "in", "NOBODY_SET"))
+            want_cl = None if in_set is True else (0 if in_set is False else "?")
+            ok = ch.kind == "const" and ch.val is None and cl.kind == "const" and cl.val == want_cl and not isinstance(cl.val, bool)
+            what = f"no body, method-expects-no-body={in_set}: chunks None, length {want_cl}"
+            key = key + (in_set,)
         elif strb is True:
-            ok = ch.kind == "tuple" and len(ch.val) == 1 and "to_bytes" in ch.val[0].tags and any(t.startswith("len:chunks[0]") for t in cl.tags)
+            ok = ch.kind == "tuple" and len(ch.val) == 1 and "to_bytes" in ch.val[0].tags and any(t.startswith("len-of:") and "to_bytes" in t for t in cl.tags)
             what = "str/bytes: one chunk of bytes, length = len of that chunk"
         elif has_read is True:
             ok = "generator-over-read" in ch.tags and cl.kind == "const" and cl.val is None
@@ -412,6 +426,13 @@ def rule_r6(ctx):
     ctx.sites(R6, len(seen), 5, "body kinds of body_to_chunks")
     # method gate for the no-body case
     txt = astq.text(btc.node)
-    ctx.ob(R6, btc.qual, "no body: Content-Length 0 unless the (upper-cased) method expects no body", "if method.upper() not in _METHODS_NOT_EXPECTING_BODY:\n            content_length = 0\n        else:\n            content_length = None" in txt)
-    ctx.ob(R6, btc.qual, "text-mode files are UTF-8 encoded block by block", "datablock = datablock.encode('utf-8')" in txt.replace('"', "'") and "encode = isinstance(body, io.TextIOBase)" in txt)
+    inner = [n for n in ast.walk(btc.node) if isinstance(n, ast.FunctionDef) and n is not btc.node]
+    ok = False
+    for fn_ in inner:
+        flags = astq.assigned_from(fn_, lambda v: isinstance(v, ast.Call) and astq.text(v) == "isinstance(body, io.TextIOBase)")
+        for n in ast.walk(fn_):
+            if isinstance(n, ast.If) and isinstance(n.test, ast.Name) and n.test.id in flags:
+                ok = ok or any(isinstance(x, ast.Assign) and isinstance(x.value, ast.Call) and isinstance(x.value.func, ast.Attribute) and x.value.func.attr == "encode"
+                               and astq.text(x.value.func.value) == astq.text(x.targets[0]) and x.value.args and getattr(x.value.args[0], "value", None) == "utf-8" for x in n.body)
+    ctx.ob(R6, btc.qual, "text-mode files are UTF-8 encoded block by block", ok)
 
